@@ -92,6 +92,8 @@ enum Fr {
     SourceEven(usize),
     SourceAt(usize),
     SourceCompressed(usize),
+    /// even split announcing the size at which it was split (instead of the default 1248), plain / bzip2
+    SourceExact(usize, bool),
     GoldEven(usize),
     GoldAt(usize),
 }
@@ -103,6 +105,7 @@ impl Fr {
             Fr::SourceEven(k) => format!("source-split{k}"),
             Fr::SourceAt(_) => "source-split2".into(),
             Fr::SourceCompressed(k) => format!("source-bz2-split{k}"),
+            Fr::SourceExact(k, z) => format!("source-{}split{k}-announcing-its-size", if *z { "bz2-" } else { "" }),
             Fr::GoldEven(k) => format!("goldsrc-split{k}"),
             Fr::GoldAt(_) => "goldsrc-split2".into(),
         }
@@ -114,7 +117,7 @@ impl Fr {
                 Framing::Source {
                     cuts: crate::rsm::even_cuts(payload_len, *k),
                     compressed: false,
-                    size_field,
+                    size_field, exact_size: false,
                     id,
                 }
             }
@@ -122,7 +125,7 @@ impl Fr {
                 Framing::Source {
                     cuts: vec![(*c).min(payload_len.saturating_sub(1)).max(1)],
                     compressed: false,
-                    size_field,
+                    size_field, exact_size: false,
                     id,
                 }
             }
@@ -130,7 +133,16 @@ impl Fr {
                 Framing::Source {
                     cuts: crate::rsm::even_cuts(payload_len, *k),
                     compressed: true,
+                    size_field, exact_size: false,
+                    id,
+                }
+            }
+            Fr::SourceExact(k, z) => {
+                Framing::Source {
+                    cuts: crate::rsm::even_cuts(payload_len, *k),
+                    compressed: *z,
                     size_field,
+                    exact_size: true,
                     id,
                 }
             }
@@ -231,6 +243,11 @@ fn build_cases(tier: Tier) -> Vec<Case> {
             frs.push(Fr::SourceCompressed(1));
             frs.push(Fr::SourceCompressed(2));
             frs.push(Fr::SourceCompressed(3));
+            for k in [2usize, 3, 4] {
+                frs.push(Fr::SourceExact(k, false));
+            }
+            frs.push(Fr::SourceExact(2, true));
+            frs.push(Fr::SourceExact(3, true));
         }
         for fr in &frs {
             for which in 0 .. 3 {
